@@ -7,7 +7,9 @@
 (***************************************************************************)
 EXTENDS StatsInd, Apalache
 
-CInit == MaxLive \in Nat /\ ConstOK
+\* (ConstOK for the constants given by the cfg file is an ASSUME that TLC
+\* checks in StatsRefA/B with the same values.)
+CInit == MaxLive \in Nat
 
 IndInit ==
     /\ lead \in 0..(MaxLim + DayLen)
